@@ -149,3 +149,111 @@ def run(ctx):
     return run_instances("C08", "harness.C08", insts, ctx,
                          assumptions=["get_segment is a model returning fixed bytes per descriptor: segment decoding and the reference cache are outside this check",
                                       "ZSTD is an abstract lossless codec stub", "handles cloned for other threads re-open the file (clone_for_thread) and share no state: concurrent readers are outside"])
+
+
+# ---------------------------------------------------------------------------------------------------------------
+# Segment level: histories over a REAL archive written in-engine by the real pipeline (harness/pipe.py), so that get_segment, the
+# per-handle reference cache, LZ decoding and both reference-decoding paths are the real code (no get_segment model here).
+from harness.pipe import Pipeline, SPL as _SPL, TWO as _TWO, RICH as _RICH, PATH as _PIPE_PATH, kmer_canon as _kmer_canon
+
+OPS2 = ["get_contig", "get_sample", "get_contig_range", "get_contig_length", "get_reference_segment", "list_contigs", "get_all_segments"]
+
+
+class SegHistory(Instance):
+    crates = ("ragc-core", "ragc-common")
+
+    def __init__(self, name, nops, samples, zstd="token"):
+        Instance.__init__(self, name)
+        self.nops, self.samples, self.zstd = nops, samples, zstd
+        self.writer = Pipeline(name + "_writer", 1, samples, splitters=_SPL, preempt=0, driver="multi", zstd=zstd)
+        self.required_witnesses = ("ok_answer", "unknown_name", "reference_segment_ok")
+        self.n_concrete = 0
+        self.bounds = {"archive": f"written by the real pipeline from {len(samples)} samples ({zstd} codec; 'store' = every part stored raw)",
+                       "history": f"every sequence of {nops} operations over {OPS2} x {{first sample, last sample, unknown name}} (contigs: first contig of the sample; groups: every group the archive uses)"}
+
+    def archive(self, e):
+        """file system holding the archive (written once per process by the real pipeline under its canonical schedule)"""
+        c = self.__dict__.setdefault("_arc", {})
+        if "fs" not in c:
+            r = self.writer.run_pipeline(e, sched=False)
+            if r.variant != 0:
+                raise Unsupported("writer failed")
+            e.sched.shutdown(); e.sched = None
+            c["fs"] = e.fs; c["tabs"] = (e.h.get("zstd_table", []), e.h.get("zstd_hash_table", {}))
+        e.fs = c["fs"]; e.sched = None
+        e.h["zstd_table"], e.h["zstd_hash_table"] = c["tabs"]
+
+    def open(self, e):
+        cfg = e.struct("DecompressorConfig", verbosity=Int(32, 0, 0))
+        r = e.call_fn(CORE, "Decompressor::open", [e.str_slice(_PIPE_PATH), cfg])
+        e.prove(r.variant == 0, "hist:open_failed", "Decompressor::open failed on the archive written by the pipeline")
+        return Cell(r.f[0])
+
+    def groups(self, e):
+        h = self.open(e)
+        r = e.call_fn(CORE, "Decompressor::get_all_segments", [Ref(h)])
+        gs = []
+        for t in e.vec_items(r.f[0]):
+            for d in e.vec_items(t.f[2]):
+                g = e.field(d, "SegmentDesc", "group_id").v
+                if g not in gs:
+                    gs.append(g)
+        return sorted(gs)
+
+    def query(self, e, hc, op, sample, contig, gid):
+        s = lambda: e.str_slice(sample); c = lambda: e.str_slice(contig)
+        h = Ref(hc)
+        if op in ("list_contigs", "get_sample"):
+            return e.call_fn(CORE, f"Decompressor::{op}", [h, s()])
+        if op in ("get_contig_length", "get_contig"):
+            return e.call_fn(CORE, f"Decompressor::{op}", [h, s(), c()])
+        if op == "get_contig_range":
+            return e.call_fn(CORE, "Decompressor::get_contig_range", [h, s(), c(), Int(64, 0, 2), Int(64, 0, 9)])
+        if op == "get_reference_segment":
+            return e.call_fn(CORE, "Decompressor::get_reference_segment", [h, Int(32, 0, gid)])
+        return e.call_fn(CORE, f"Decompressor::{op}", [h])
+
+    def path(self, e):
+        self.archive(e)
+        gs = self.__dict__.setdefault("_groups", None) or self.groups(e)
+        self._groups = gs
+        lz = [g for g in gs if g >= 16]
+        names = [self.samples[0][0], self.samples[-1][0], b"zz"]
+        contigs = [self.samples[0][1][0][0], self.samples[-1][1][0][0], b"nope"]
+        hc = self.open(e)
+        hist = []
+        for i in range(self.nops):
+            op = OPS2[e.choose(len(OPS2), f"op{i}")]
+            arg = e.choose(3, f"arg{i}")
+            gid = (lz + [9999])[e.choose(len(lz) + 1, f"g{i}")] if op == "get_reference_segment" else 0
+            hist.append([op, names[arg].decode(), gid]); e.inputs["history"] = hist
+            got = self.query(e, hc, op, names[arg], contigs[arg], gid)
+            fresh = self.query(e, self.open(e), op, names[arg], contigs[arg], gid)
+            takes_name = op not in ("get_all_segments", "get_reference_segment")
+            isres = isinstance(got, Agg) and got.ty == "Result"
+            if arg == 2 and takes_name:
+                e.witness("unknown_name")
+                e.prove(isres and got.variant == 1, "hist:unknown_not_error", f"{op} on an unknown name did not return an error value")
+            elif isres and got.variant == 0:
+                e.witness("ok_answer")
+                if op == "get_reference_segment":
+                    e.witness("reference_segment_ok")
+            e.prove(same(e, got, fresh), "hist:answer_depends_on_history", f"{op}({names[arg].decode()}{', group ' + str(gid) if op == 'get_reference_segment' else ''}) after {hist[:-1]} differs from the same query on a fresh handle")
+            if op == "get_reference_segment" and gid in lz:
+                e.prove(isres and got.variant == 0, "hist:reference_segment_failed", f"get_reference_segment({gid}) fails although group {gid} exists in the archive (history {hist[:-1]})")
+        return None
+
+    def classify_panic(self, e, ex):
+        return f"hist:panic:{ex.where.split('::')[-1]}:{ex.kind}", str(ex)
+
+    def native(self, inp):
+        return "seg_history", {"history": inp.get("history", []), "zstd": self.zstd, "samples": [[sn.decode(), [[cn.decode(), list(d)] for cn, d in cs]] for sn, cs in self.samples],
+                               "splitters": [str(_kmer_canon(w)) for w in _SPL]}
+
+    def confirm(self, viol, outs):
+        return any(("panic" in o or "crash" in o or o.get("ok") is False) for o in outs.values())
+
+
+QUICK.append(_reg(SegHistory("seg_hist2", 2, _TWO)).name)
+QUICK.append(_reg(SegHistory("seg_hist2_store", 2, _TWO, zstd="store")).name)
+THOROUGH += ["seg_hist2", "seg_hist2_store", _reg(SegHistory("T_seg_hist2_rich", 2, _RICH)).name, _reg(SegHistory("T_seg_hist3", 3, _TWO, zstd="store")).name]
